@@ -260,6 +260,25 @@ pub fn run(tier: &str, seed: u64) -> i32 {
             }
         },
     );
+    // key lists of 62-130 members (the solver counts hits differently from 64 members on)
+    {
+        let big = crate::checks::c08::big_list_reference_cases(tier);
+        let subs: Vec<Report> = par_run(|w, n| {
+            let mut sub = report.sub();
+            for (i, c) in big.iter().enumerate() {
+                if i % n != w {
+                    continue;
+                }
+                let out = judge(c);
+                sub.label("big_key_list");
+                sub.record(c, out);
+            }
+            sub
+        });
+        for s in subs {
+            report.merge(s);
+        }
+    }
     // everything about one field x every value kind
     gen::drive(
         &mut report,
@@ -270,7 +289,7 @@ pub fn run(tier: &str, seed: u64) -> i32 {
             if !rule.well_formed() {
                 return vec![];
             }
-            vec![make_case(rule, gen::same_field_docs("f1"))]
+            vec![make_case(rule, gen::same_field_docs_for(rule, "f1"))]
         },
         judge,
         |_, rep| rep.label("same_field_rule"),
